@@ -992,12 +992,19 @@ class GeneralThermodynamics:
             return result.chemical_potentials, cs_matrix, cs_precip, miscibility_gap
         
         # If no cache exists, then compute global equilibrium, else, update cached composition sets
-        if cached_composition_sets.get(precPhase, None) is None:
+        # The solver may drop a phase from the cached composition sets (and they stay dropped for every later call)
+        # or the precipitate set may collapse onto the matrix composition (order/disorder models),
+        # so if the cached sets no longer give two distinct phases, we fall back to the global equilibrium
+        use_global = cached_composition_sets.get(precPhase, None) is None
+        if not use_global:
+            chemical_potentials, cs_matrix, cs_precip, miscibility_gap = _update_composition_sets(cached_composition_sets[precPhase])
+            use_global = cs_matrix is None or cs_precip is None or any(np.isnan(chemical_potentials))
+            if not use_global:
+                use_global = np.allclose(np.array(cs_matrix.X), np.array(cs_precip.X), rtol=0, atol=1e-6)
+        if use_global:
             wks = self.getEq(x, T, 0, precPhase)
             cs_matrix, cs_precip, miscibility_gap = _process_composition_sets(wks.get_composition_sets())
             chemical_potentials = np.squeeze(wks.eq.MU)
-        else:
-            chemical_potentials, cs_matrix, cs_precip, miscibility_gap = _update_composition_sets(cached_composition_sets[precPhase])
         
         # If invalid equilibrium, then return None to denote that we cannot use this calculation
         if any(np.isnan(chemical_potentials)):
